@@ -557,8 +557,13 @@ func (c *Conn) Close() error {
 	// our outgoing direction ends with a FIN after the data already written
 	c.wr.queueFin()
 	c.wr.q.WakeAll()
-	// the peer can no longer write to us
-	c.rd.rst = true
+	// what the peer writes from now on goes nowhere. (A real stack would answer
+	// with RST, which may also destroy data still in flight to the peer; that is
+	// transport behaviour, not the library's, so simnet models the benign case:
+	// the peer reads everything we sent, then EOF. Abortive loss is what the
+	// net.cut fault is for.)
+	c.rd.discard = true
+	c.rd.buf = nil
 	c.rd.q.WakeAll()
 	return nil
 }
